@@ -286,10 +286,13 @@ func re_match(ctx *context, args []Datum) (retBool Datum) {
 
 	lit0 := args[0].Literal("re_match()")
 	lit1 := args[1].Literal("re_match()")
-	rx, err := regexp.Compile(lit1)
+	// RFC 7950 section 10.2.1: true iff the whole subject matches the
+	// pattern (patterns are implicitly anchored, as in the YANG pattern
+	// statement); a pattern that does not compile matches nothing.
+	rx, err := regexp.Compile("^(?:" + lit1 + ")$")
 	if err != nil {
 		log.Error(err)
-		return NewBoolDatum(true)
+		return NewBoolDatum(false)
 	}
 
 	return NewBoolDatum(rx.MatchString(lit0))
